@@ -90,7 +90,7 @@ func runFees(f *hx.Flags, o *hx.Out) {
 
 func randomFeesCase(f *hx.Flags, o *hx.Out, k int, r *prng.R) {
 	thorough := f.Tier == "thorough"
-	switch r.Weighted([]int{6, 4, 10, 12, 54, 12, 2}) {
+	switch r.Weighted([]int{6, 4, 10, 12, 52, 12, 2, 2}) {
 	case 0: // emit.Int / emit.Bytes
 		for i := 0; i < 4; i++ {
 			var v int64
@@ -152,8 +152,12 @@ func randomFeesCase(f *hx.Flags, o *hx.Out, k int, r *prng.R) {
 		admitCase(f, o, k, r)
 	case 5:
 		runSpecial(o, k, r, specialKinds[r.Intn(len(specialKinds))])
-	default:
+	case 6:
 		doFeeFields(o, k, r)
+	default:
+		for i := 0; i < 4; i++ {
+			doDaoSeq(o, k, r)
+		}
 	}
 }
 
@@ -187,6 +191,11 @@ func feesCorpus() []func(o *hx.Out, k int, r *prng.R) {
 		c = append(c, func(o *hx.Out, k int, r *prng.R) { doVariant(o, k, r, 2, keyPool[:3], 0, 0, mut) })
 	}
 	c = append(c, func(o *hx.Out, k int, r *prng.R) { doFeeFields(o, k, r) })
+	c = append(c, func(o *hx.Out, k int, r *prng.R) {
+		for i := 0; i < 20; i++ {
+			doDaoSeq(o, k, r)
+		}
+	})
 	c = append(c, admitCorpus()...)
 	c = append(c, specialCorpus()...)
 	return c
